@@ -652,6 +652,16 @@ impl<'template, 'env> BlockStack<'template, 'env> {
         self.depth = self.depth.checked_sub(1).unwrap()
     }
 
+    /// Moves the cursor to the most derived definition and returns where it was.
+    pub fn enter_most_derived(&mut self) -> usize {
+        std::mem::replace(&mut self.depth, 0)
+    }
+
+    /// Puts the cursor back to where [`enter_most_derived`](Self::enter_most_derived) found it.
+    pub fn restore_depth(&mut self, depth: usize) {
+        self.depth = depth;
+    }
+
     pub fn append_instructions(&mut self, instructions: &'template Instructions<'env>) {
         self.instructions.push(instructions);
     }
